@@ -28,7 +28,7 @@ ASSUMPTIONS = [
     "q=+1 for K/R, -1 for D/E, 0 otherwise; agreement judged to 1e-9 relative + 1e-12 absolute",
     "anchors: SCD(sv1=(EK)25) = -0.41 and SCD(sv30=E25K25) = -27.84 as published by Sawle & Ghosh (2 decimals)",
 ]
-REQUIRED = {"all": ["salted_objects", "texts_with_one_residue_type_in_lower_case", "shuffled_copies_with_large_frozen_regions", "charged_counts_next_to_512_1024", "fewer_than_two_charges", "charged_first_residue", "charged_last_residue", "long_repetitive",
+REQUIRED = {"all": ["salted_objects", "two_charged_residues_at_every_length", "pair_swap_children_of_queried_parents", "texts_with_one_residue_type_in_lower_case", "shuffled_copies_with_large_frozen_regions", "charged_counts_next_to_512_1024", "fewer_than_two_charges", "charged_first_residue", "charged_last_residue", "long_repetitive",
                     "after_other_queries", "anchors", "longer_than_1000", "second_calls"]}
 LP = {"quick": 10, "thorough": 12}
 NRANDOM = {"quick": 500, "thorough": 5000}
@@ -58,6 +58,16 @@ def cases(tier, seed):
     # separations beyond 4096 residues (one chain; the library's pair loop needs ~15 s for it)
     if tier == "thorough":
         yield {"k": "seq", "s": "KE" + "G" * 2000 + "D" + "S" * 2197 + "RK", "pre": 0}
+    # exactly two charged residues (first and last but one position, and at random positions) at every length 5 .. 260
+    rng2 = gen.sub_rng(0, ID, "two_charges")
+    for n in range(5, (261 if tier == "quick" else 700)):
+        body = ["G"] * n
+        i_, j_ = (0, n - 2) if n % 2 else tuple(sorted(rng2.sample(range(n), 2)))
+        body[i_], body[j_] = rng2.choice("KR"), rng2.choice("DEKR")
+        yield {"k": "seq", "s": "".join(body), "pre": 0, "two": 1}
+    # children of a pair swap of a parent that has already answered
+    for j in range(24 if tier == "quick" else 200):
+        yield {"k": "swapped", "o": j}
     # text typed with ONE residue type in lower case (the constructor upper-cases everything; 'pS' is Pro-Ser)
     for text in ["RRApTVADEK", "GpSGpYKKE", "ApTpSpYEEK", "pSpSpSKKKK", "KKEpSDDpTRR", "RRAPtVADEk", "eEeEkKkK", "GsGsGsKKEE", "mKDEpSGGpYpTR", "pK", "Kp"]:
         yield {"k": "typed", "text": text}
@@ -105,6 +115,23 @@ def judge(case, rep, S):
             if not M.close(float(got), want):
                 rep.viol("scd_value", "get_SCD of a %d-residue sequence = %r, the Sawle-Ghosh sum gives %r (sequences of lengths %r analysed in this order in one process)" % (
                     n, got, want, case["lens"]), sig={"N": n})
+        return
+    if case["k"] == "swapped":
+        rng = gen.sub_rng(case["o"], ID, "swapped")
+        pseq = gen.rand_seq(rng, rng.choice(["polyampholyte", "idp", "titratable"]), lo=6, hi=40)
+        par = S["SP"](pseq)
+        par.get_SCD()
+        cur = par.SeqObj
+        for step in range(rng.randint(1, 4)):
+            i_, j_ = rng.randrange(len(pseq)), rng.randrange(len(pseq))
+            cur = cur.swapRes(i_, j_)
+            cobj = S["SP"](SeqObj=cur)
+            got, want = cobj.get_SCD(), M.scd_ref(M.pattern(cur.seq))
+            rep.cnt("pair_swap_children_of_queried_parents")
+            if sorted(cur.seq) != sorted(pseq) or not M.close(float(got), want):
+                rep.viol("scd_value", "child %s (step %d, swapRes(%d,%d)) of %s, which had answered get_SCD: get_SCD = %r, its own sequence gives %r" % (
+                    cur.seq, step, i_, j_, pseq, got, want), sig={"N": len(pseq), "swap_child": True})
+                return
         return
     if case["k"] == "typed":
         text = case["text"]
@@ -172,6 +199,8 @@ def judge(case, rep, S):
         rep.cnt("charged_last_residue")
     if len(seq) >= 150:
         rep.cnt("long_repetitive")
+    if case.get("two"):
+        rep.cnt("two_charged_residues_at_every_length")
     if case.get("tile"):
         rep.cnt("charged_counts_next_to_512_1024")
     ok = False
